@@ -312,11 +312,14 @@ def stepLineApi (st : ApiSess) (line : String) : ApiSess × String :=
         ({ st with a := { st.a with ms := st.a.ms.insert id { m' with sched := [] } } },
           showOut r ++ (if left then " SCHED-LEFT" else ""))
     | none =>
-    match splitOuts args with
-    | none => (st, "err BAD-LINE")
-    | some (args', outs) =>
-    match stepApiAuto op args' outs with
-    | some x =>
+    -- (`->` is also a spelling of implication: a line whose `->` is not followed by handle ids
+    -- is not an autoref line)
+    let autoHit : Option (AM Res × List Nat) :=
+      match splitOuts args with
+      | some (args', outs) => (stepApiAuto op args' outs).map fun x => (x, outs)
+      | none => none
+    match autoHit with
+    | some (x, outs) =>
       match parseSched restSched with
       | none => (st, "err BAD-SCHEDULE")
       | some sched =>
@@ -338,7 +341,10 @@ def stepLineApi (st : ApiSess) (line : String) : ApiSess × String :=
     else if op == "parse" || op == "lex" || op == "add_expr" then
       let (ms', o) := stepLineParse st.a.ms line
       ({ st with a := { st.a with ms := ms' } }, o)
-    else viaAuto
+    else if isAutoOp op then viaAuto
+    else
+      let (ms', o) := stepLine st.a.ms line
+      ({ st with a := { st.a with ms := ms' } }, o)
   | _ => viaAuto
 
 end DD
